@@ -167,6 +167,14 @@ def main():
         rng.shuffle(rows)
         bj_items.append({'columns': ['a', 'b', 'label'], 'rows': rows,
                          'args': {'heuristic': 'MI-numba-randomized', 'label_column': 'label', 'interaction_order': 2, 'missing_value_symbols': miss, 'combination_number_upper_bound': 10 ** 6}})
+    # long values (ids, urls: 10..100+ characters) that are prefixes / suffixes of one string: every way of cutting one string
+    # in two gives the same concatenation, so only a faithful representation of the PAIR keeps the rows apart
+    for s_ in ('123456789012', '1' * 25, 'http://example.org/a/b?id=1234567890&x=' + 'ab' * 40):
+        rows = [[s_[:k_], s_[k_:], str(k_ % 2)] for k_ in range(len(s_) + 1)]
+        rows += [[s_[:1], s_[1:], '1'], [s_, s_, '0']]
+        rng.shuffle(rows)
+        bj_items.append({'columns': ['a', 'b', 'label'], 'rows': rows,
+                         'args': {'heuristic': 'MI-numba-randomized', 'label_column': 'label', 'interaction_order': 2, 'missing_value_symbols': ',{}', 'combination_number_upper_bound': 10 ** 6}})
     br = PC.pipe_eval([{'op': 'batch_features', 'items': bj_items}], modules=['pipe_ops'])[0]
     if br is None or 'ok' not in br:
         V.violation('raises:batch-path', f'compute_batch_ranking failed: {PC.failure_text(br)}', {'items': bj_items[:1]})
